@@ -298,7 +298,7 @@ theorem f50_chainOK : ChainOK f50Schema f50Tree [1] f50Levels where
 /-- non-vacuity of `ChainOK` together with the hypothesis of `new_path_chain_partial`: the first `kl` instance (`/ma:kl[1]`) -/
 example : ChainOK f50Schema f50Tree [0] [⟨f50Tree, 0, f50Tree[0]!, none⟩] ∧
     ¬ TopPositionAbove1 [⟨f50Tree, 0, f50Tree[0]!, none⟩] := by
-  refine ⟨⟨rfl, by simp, ?_, ?_, ?_⟩, by decide⟩
+  refine ⟨⟨rfl, by simp, ?_, ?_, ?_⟩, by simp only [TopPositionAbove1]; decide⟩
   · intro l hl
     simp only [List.mem_singleton] at hl
     subst hl
